@@ -1,6 +1,6 @@
 ---- MODULE MC_Pager ----
 EXTENDS Pager
-MCFamilies == {"query", "path", "pathmid", "pathmidext", "file", "datedfile", "pathslash", "queryid"}
+MCFamilies == {"query", "path", "pathmid", "pathmidext", "file", "datedfile", "pathslash", "queryid", "queryhtml"}
 MCSeps     == {"space", "bar", "none", "comma", "tightbar"}
 MCWraps    == {"div", "ulli", "span", "td", "indent"}
 MCDecos    == {"span", "strong", "b", "em", "plain", "bracket"}
